@@ -132,10 +132,20 @@ impl Scheduler for SimScheduler {
         &mut self,
         runnable: &[&Task],
         current: Option<TaskId>,
-        _is_yielding: bool,
+        is_yielding: bool,
     ) -> Option<TaskId> {
-        let ids: Vec<u32> = runnable.iter().map(|t| usize::from(t.id()) as u32).collect();
+        let all_ids: Vec<u32> = runnable.iter().map(|t| usize::from(t.id()) as u32).collect();
         let cur = current.map(|c| usize::from(c) as u32);
+        // A task that calls `thread::yield_now()` (a spin-wait in the code under test) asks
+        // for somebody else to run: honour it whenever somebody else can, under every
+        // scheduler.  Otherwise a priority schedule would starve the task the spinner waits
+        // for, and a loop that ends under any fair scheduler would look like a livelock.
+        let ids: Vec<u32> = match cur {
+            Some(c) if is_yielding && all_ids.len() > 1 && !matches!(self.spec, SchedSpec::Replay { .. }) && crate::real_guards_held() == 0 => {
+                all_ids.iter().copied().filter(|t| *t != c).collect()
+            }
+            _ => all_ids.clone(),
+        };
         let (step, choice_step) = {
             let l = self.log.lock().unwrap();
             (l.steps, l.choice_steps)
@@ -224,7 +234,7 @@ impl Scheduler for SimScheduler {
         let mut l = self.log.lock().unwrap();
         l.steps += 1;
         l.decisions.push(chosen);
-        if ids.len() > 1 {
+        if all_ids.len() > 1 {
             l.choice_steps += 1;
             let mut h = l.schedule_hash ^ ((l.choice_steps << 20) ^ chosen as u64);
             h = h.wrapping_mul(0x100_0000_01b3).rotate_left(23) ^ 0x9E37_79B9_7F4A_7C15;
@@ -233,12 +243,12 @@ impl Scheduler for SimScheduler {
         if let Some(last) = self.last {
             if last != chosen {
                 l.context_switches += 1;
-                if ids.contains(&last) {
+                if all_ids.contains(&last) {
                     l.preemptions += 1;
                 }
             }
         }
-        if let Some(&m) = ids.iter().max() {
+        if let Some(&m) = all_ids.iter().max() {
             if m > l.max_task {
                 l.max_task = m;
             }
